@@ -103,6 +103,12 @@ CHECKS = {
         text='Every closed lattice polygon up to 4 (quick) / 5 (thorough) vertices - convex, concave, self-intersecting, degenerate - is built; area() is compared with the exact shoelace value and its reversed/translated/scaled variants with the exact transformation law; path_encloses_pt is compared with exact even-odd parity of the same probe for every probe certified (exactly, with a 1e-9 margin) to be in general position; is_contained_by with exact proper-crossing + enclosure.',
         note='Trusted: Fraction arithmetic. Polygons with a retraced edge and probes within 1e-9 of a vertex/edge are filtered (counted in the evidence): a closed-interval test cannot decide them under rounding.',
         design='4/C14'),
+    'C15': dict(
+        level='exploration',
+        technique='bounded-exhaustive enumeration of segment library x rotations x t alphabet, coincident-control Beziers x 8 headings x both ends x three input representations, and similarity transforms, against exact derivatives over Q',
+        text='unit_tangent must be unit and equal the exact derivative direction; where the exact derivative vanishes at an end point it must equal the direction of the first non-vanishing exact higher derivative with the sign of the approach from inside [0,1] - for Python complex inputs, numpy scalars and the output of the library\'s own rotated(); normal = -i*tangent; curvature equals the exact formula at regular points (1/r on circular arcs, 0 on lines); tangent and curvature transform correctly under translation, rotation, scaling and reversal; the numpy error state is restored.',
+        note='Trusted: Fraction arithmetic for exact derivatives. Interior parameters with (near-)zero speed are excluded (one-sided limits differ).',
+        design='4/C15'),
 }
 
 NOT_YET = {}
